@@ -40,6 +40,10 @@ func (r *ReferenceStorage) CheckAndSetReference(ref, old *plumbing.Reference) er
 		return r.SetReference(ref)
 	}
 
+	if _, deleted := r.deleted[old.Name()]; deleted {
+		return plumbing.ErrReferenceNotFound
+	}
+
 	tmp, err := r.temporal.Reference(old.Name())
 	if err == plumbing.ErrReferenceNotFound {
 		tmp, err = r.ReferenceStorer.Reference(old.Name())
@@ -81,6 +85,17 @@ func (r ReferenceStorage) IterReferences() (storer.ReferenceIter, error) {
 	if err != nil {
 		return nil, err
 	}
+
+	// References of the base storage that were removed or overwritten in
+	// this transaction are not part of the view: the temporal storage
+	// holds their current value, if any.
+	baseIter = storer.NewReferenceFilteredIter(func(ref *plumbing.Reference) bool {
+		if _, deleted := r.deleted[ref.Name()]; deleted {
+			return false
+		}
+		_, err := r.temporal.Reference(ref.Name())
+		return err == plumbing.ErrReferenceNotFound
+	}, baseIter)
 
 	return storer.NewMultiReferenceIter([]storer.ReferenceIter{
 		baseIter,
